@@ -215,7 +215,11 @@ func ZZ_C14_visit() {
 	base.walk(doc, nil, nil, nil)
 	n := len(base.events)
 	policy := map[int]int{}
-	for a := 0; a < zzParam("ACTIONS", 1); a++ {
+	nact := zzParam("ACTIONS", 1)
+	if di < zzParam("A2FROM", 0) && nact > 1 {
+		nact = 1 // the two large documents get one action; pairs of actions would be ~10^6 paths each
+	}
+	for a := 0; a < nact; a++ {
 		pos := zzChoice("pos"+zzKeyStr(a), n+1)
 		if pos < n {
 			act := zzActBreak
